@@ -241,9 +241,18 @@ func (m *monitor) oneCorpus(i int, g *rng.Rand, nQueries int) {
 	}
 	free := newQGen(g.Fork(), s, live, false)
 	exposed := newQGen(g.Fork(), s, live, true)
-	for k := 0; k < nQueries; k++ {
+	// directed shapes come after the drawn ones and from their own stream, so that the drawn cases of a
+	// seed do not depend on them
+	directed := newQGen(r.Rng(fmt.Sprintf("search-%d-directed", i)), s, live, false)
+	nDirected := 6
+	for k := 0; k < nQueries+nDirected; k++ {
 		var q *Q
 		switch {
+		case k >= nQueries:
+			if q = directed.crossLevelAsClause(); q == nil {
+				continue
+			}
+			r.Count("directed:nested_conjunction_as_clause", 1)
 		case k == 0:
 			q = &Q{Kind: "all"}
 		case k == 1:
